@@ -726,3 +726,87 @@ def _err_source(body, eb):
             break
         return "? (unresolved source)"
     return "explicit Err"
+
+
+def rec_args(ck, F, rule="REC-ARGS"):
+    """The history record describes the operation that was actually applied: where a UserModel operation X calls
+    Model::X and pushes a Diff variant, every numeric Diff field that has the same name as a parameter of Model::X comes
+    from the same inputs (parameters, fields, arithmetic) as the argument passed for that parameter."""
+    from rules_attr import sources
+    DIFF = "ironcalc_base::user_model::history::Diff"
+    for path in sorted(F.body_paths()):
+        h = F.heads[path]
+        if h.get("bkind") != "fn" or "user_model" not in path:
+            continue
+        b = F.body(path)
+        aggs = []
+        for bi, si, s in b.stmts():
+            rv = s["rv"]
+            if rv["k"] == "agg" and rv.get("adt") == DIFF:
+                aggs.append((bi, si, rv["variant"], dict(zip(rv.get("fields") or [], rv["ops"]))))
+        if not aggs:
+            continue
+        me = b.qname.split("::")[-1]
+        for cbi, t in b.calls():
+            c = b.callee(t)
+            if c not in F.heads or "::Model::" not in (F.qname_of(c) or ""):
+                continue
+            cb = F.body(c)
+            if cb.qname.split("::")[-1] != me:
+                continue
+            pn = {cb.local_name(i): i - 1 for i in range(1, cb.nargs + 1) if cb.local_name(i)}
+            for (abi, asi, var, flds) in aggs:
+                if len([k for k in flds if k in pn]) < 2:
+                    continue
+                for k in flds:
+                    if k not in pn or pn[k] >= len(t["args"]) or cb.locals[pn[k] + 1] not in ("i32", "u32", "usize", "f64", "i64"):
+                        continue
+                    pa = {a for a in sources(b, flds[k]) if a[0] in ("param", "field", "arith")}
+                    pc = {a for a in sources(b, t["args"][pn[k]]) if a[0] in ("param", "field", "arith")}
+                    if not pa:
+                        continue    # per-item records built from a returned list
+                    f, l = b.loc(abi, asi)
+                    ck.ob(rule, "%s|%s.%s" % (me, var, k), pa == pc,
+                          "%s records Diff::%s.%s from %s but passes %s to Model::%s as `%s`: undo/redo would replay a different operation"
+                          % (me, var, k, sorted(map(str, pa)), sorted(map(str, pc)), me, k), f, l, sample={"op": me, "variant": var, "field": k})
+
+
+def queue_append_only(ck, F, rule="QUEUE-APPEND"):
+    """Outside flush_send_queue the replication queue only grows: every `&mut` use of UserModel.send_queue is a
+    Vec::push, and the only plain stores to the field are the constructors' empty vectors and flush's reset."""
+    UM = "ironcalc_base::user_model::common::UserModel"
+    n = 0
+    for path in sorted(F.body_paths()):
+        if "user_model" not in path:
+            continue
+        b = F.body(path)
+        me = b.qname.split("::", 1)[-1]
+        # &mut borrows of the field and what receives them
+        borrows = {}
+        for bi, si, s in b.stmts():
+            rv = s["rv"]
+            if rv["k"] in ("ref", "rawptr") and rv.get("mut"):
+                rp = b.resolve_place(rv["p"])
+                fs = [e for e in place_proj(rp) if e[0] == "f"]
+                if fs and fs[-1][2] == "send_queue" and fs[-1][3] == UM and place_proj(rp)[-1] is fs[-1] and not place_proj(s["p"]):
+                    borrows[s["p"]["l"]] = (bi, si)
+            # plain store to the field
+            if place_proj(s["p"]):
+                rp = b.resolve_place(s["p"])
+                fs = [e for e in place_proj(rp) if e[0] == "f"]
+                if fs and fs[-1][2] == "send_queue" and fs[-1][3] == UM and place_proj(rp)[-1] is fs[-1]:
+                    n += 1
+                    f, l = b.loc(bi, si)
+                    ck.ob(rule, "%s|store" % me, me.endswith("flush_send_queue"),
+                          "%s overwrites send_queue: pending diffs would never reach the replicas" % me, f, l)
+        for bi, t in b.calls():
+            for a in t["args"][:1]:
+                p = op_place(a)
+                if p is not None and not place_proj(p) and p["l"] in borrows:
+                    last = (b.callee_q(t) or "?").rsplit("::", 1)[-1]
+                    n += 1
+                    f, l = b.loc(bi)
+                    ck.ob(rule, "%s|%s" % (me, last), last == "push" or me.endswith("flush_send_queue"),
+                          "%s calls %s on send_queue: only push may touch the queue outside flush_send_queue (a removed entry is a change the replicas never see)" % (me, last),
+                          f, l, sample={"fn": me, "method": last})
+    ck.note("send_queue_uses", n)
